@@ -109,7 +109,8 @@ def wallet_cases(draw):
         "in_idx": draw(st.lists(st.integers(0, 30), min_size=2, max_size=2, unique=True)),
         "in_amounts": draw(st.lists(st.integers(100000, 10**9), min_size=2, max_size=2)),
         "prev_out_index": draw(st.lists(st.integers(0, 2), min_size=2, max_size=2)),
-        "n_spends": draw(st.integers(1, 2)),
+        "n_spends": draw(st.integers(1, 3)),
+        "same_spend_address": draw(st.sampled_from([False, False, True])),
         "has_change": draw(st.booleans()),
         "change_idx": draw(st.integers(0, 30)),
         "change_first": draw(st.booleans()),
@@ -167,7 +168,9 @@ def build(case):
     remaining = spendable
     for k in range(case["n_spends"]):
         amt = max(1000, spendable * case["spend_fraction"][k] // 100)
-        outs.append({"kind": "spend", "amount": amt, "spk": b"\x76\xa9\x14" + bytes([k + 1]) * 20 + b"\x88\xac"})
+        # two spends may pay the SAME address (their amounts still have to add up in the summary)
+        tag = 1 if case.get("same_spend_address") else k + 1
+        outs.append({"kind": "spend", "amount": amt, "spk": b"\x76\xa9\x14" + bytes([tag]) * 20 + b"\x88\xac"})
         remaining -= amt
     if case["has_change"]:
         outs.append({"kind": "change", "amount": remaining, "idx": case["change_idx"],
@@ -293,6 +296,8 @@ def check_honest(case, ctx):
     ctx.label("kind:" + case["kind"])
     ctx.label(f"m={model.m},n={model.n}")
     ctx.label("with_change" if case["has_change"] else "sweep")
+    if case.get("same_spend_address") and case["n_spends"] >= 2:
+        ctx.label("duplicate_spend_address")
     ctx.nontrivial(case["has_change"] or model.n >= 2)
     pm = parse_own(blob)
     st_, desc = describe(blob, hmap)
@@ -474,7 +479,8 @@ def check_tamper(case, ctx):
 SUBS = [
     Sub("honest_summary", check_honest, strategy=lambda tier: wallet_cases(),
         budget={"quick": 120, "thorough": 5000},
-        required=["kind:p2sh", "kind:p2wsh", "with_change", "sweep", "m=2,n=3", "m=1,n=1"],
+        required=["kind:p2sh", "kind:p2wsh", "with_change", "sweep", "m=2,n=3", "m=1,n=1",
+                  "duplicate_spend_address"],
         nontrivial_rule="wallet with n >= 2 or a change output"),
     Sub("tampering", check_tamper, strategy=lambda tier: tamper_cases(),
         budget={"quick": 360, "thorough": 15000},
